@@ -57,3 +57,334 @@ theorem unescape_cons_ne (c : Char) (r : List Char) (h : c ≠ '\\') :
     unescape (c :: r) = (unescape r).map (c :: ·) := by
   rw [unescape.eq_def]; simp [h]
 end Verif.C08
+
+namespace Verif.C08
+open Verif.Py Verif.Tables
+
+theorem splitOn_ne_nil (c : Char) (s : List Char) : splitOn c s ≠ [] := by
+  induction s with
+  | nil => simp [splitOn]
+  | cons x xs ih =>
+    unfold splitOn
+    split
+    · simp
+    · cases splitOn c xs <;> simp [consHead]
+
+theorem splitOn_cons_eq (c : Char) (xs : List Char) : splitOn c (c :: xs) = [] :: splitOn c xs := by
+  simp [splitOn]
+
+theorem splitOn_cons_ne (c x : Char) (xs : List Char) (h : x ≠ c) :
+    splitOn c (x :: xs) = consHead x (splitOn c xs) := by
+  simp [splitOn, h]
+
+theorem splitOn_noSep (c : Char) (s : List Char) (h : c ∉ s) : splitOn c s = [s] := by
+  induction s with
+  | nil => rfl
+  | cons x xs ih =>
+    simp only [List.mem_cons, not_or] at h
+    rw [splitOn_cons_ne c x xs (Ne.symm h.1), ih h.2]; rfl
+
+theorem splitOn_append_sep (c : Char) (p rest : List Char) (h : c ∉ p) :
+    splitOn c (p ++ c :: rest) = p :: splitOn c rest := by
+  induction p with
+  | nil => simp [splitOn_cons_eq]
+  | cons x xs ih =>
+    simp only [List.mem_cons, not_or] at h
+    simp only [List.cons_append]
+    rw [splitOn_cons_ne c x _ (Ne.symm h.1), ih h.2]; rfl
+
+theorem splitOn_joinWith (c : Char) (ps : List (List Char)) (hne : ps ≠ [])
+    (h : ∀ p ∈ ps, c ∉ p) : splitOn c (joinWith c ps) = ps := by
+  induction ps with
+  | nil => exact absurd rfl hne
+  | cons p ps ih =>
+    cases ps with
+    | nil => simp [joinWith, splitOn_noSep c p (h p (by simp))]
+    | cons q qs =>
+      simp only [joinWith]
+      rw [splitOn_append_sep c p _ (h p (by simp))]
+      rw [ih (by simp) (fun x hx => h x (by simp [hx]))]
+
+theorem count_joinWith (c : Char) (ps : List (List Char)) (hne : ps ≠ [])
+    (h : ∀ p ∈ ps, c ∉ p) : (joinWith c ps).count c = ps.length - 1 := by
+  induction ps with
+  | nil => exact absurd rfl hne
+  | cons p ps ih =>
+    cases ps with
+    | nil => simp [joinWith, List.count_eq_zero.mpr (h p (by simp))]
+    | cons q qs =>
+      simp only [joinWith, List.count_append, List.count_cons_self]
+      rw [ih (by simp) (fun x hx => h x (by simp [hx]))]
+      simp [List.count_eq_zero.mpr (h p (by simp))]
+
+theorem not_mem_joinWith (c d : Char) (ps : List (List Char)) (hcd : d ≠ c)
+    (h : ∀ p ∈ ps, d ∉ p) : d ∉ joinWith c ps := by
+  induction ps with
+  | nil => simp [joinWith]
+  | cons p ps ih =>
+    cases ps with
+    | nil => simpa [joinWith] using h p (by simp)
+    | cons q qs =>
+      simp only [joinWith, List.mem_append, List.mem_cons, not_or]
+      exact ⟨h p (by simp), hcd, ih (fun x hx => h x (by simp [hx]))⟩
+
+theorem rstripChar_not_mem (c : Char) (s : List Char) (h : c ∉ s) : rstripChar c s = s := by
+  unfold rstripChar
+  cases hs : s.reverse with
+  | nil => simpa using hs
+  | cons x xs =>
+    have hs' : s = xs.reverse ++ [x] := by
+      have := congrArg List.reverse hs
+      simpa using this
+    have hx : x ∈ s := by
+      have : x ∈ s.reverse := by rw [hs]; simp
+      simpa using this
+    have : x ≠ c := fun e => h (e ▸ hx)
+    simp [List.dropWhile, this, hs']
+
+theorem rstripChar_snoc (c : Char) (s : List Char) : rstripChar c (s ++ [c]) = rstripChar c s := by
+  unfold rstripChar
+  simp [List.dropWhile]
+
+theorem escape_eq_nil (s : List Char) : escape s = [] ↔ s = [] := by
+  constructor
+  · intro h
+    cases s with
+    | nil => rfl
+    | cons c s =>
+      rw [escape_cons] at h
+      have : escChar c ≠ [] := by
+        unfold escChar
+        repeat' split
+        all_goals exact List.cons_ne_nil _ _
+      exact absurd (List.append_eq_nil_iff.mp h).1 this
+  · intro h; subst h; exact escape_nil
+
+end Verif.C08
+
+namespace Verif.C08
+open Verif.Py Verif.Tables
+
+/-- "escape and unescape are mutually inverse" (1/2): unescape undoes escape, for every string. -/
+theorem L.unescape_escape (s : List Char) : unescape (escape s) = .ok s := by
+  induction s with
+  | nil => rw [escape_nil]; rfl
+  | cons c s ih =>
+    rw [escape_cons]
+    unfold escChar
+    by_cases h1 : c = '\\'
+    · subst h1; simp [unescape, ih, Except.map]
+    · by_cases h2 : c = '\n'
+      · subst h2; simp [unescape, ih, Except.map]
+      · by_cases h3 : c = '@'
+        · subst h3; simp [unescape, ih, Except.map, tables_ok.2]
+        · rw [if_neg h1, if_neg h2, if_neg h3]; simp [unescape_cons_ne _ _ h1, ih, Except.map]
+
+/-- "the encoded line never contains a raw newline [or a delimiter inside a value]". -/
+theorem L.escape_safe (s : List Char) : '\n' ∉ escape s ∧ '@' ∉ escape s := by
+  induction s with
+  | nil => rw [escape_nil]; simp
+  | cons c s ih =>
+    rw [escape_cons]
+    unfold escChar
+    by_cases h1 : c = '\\'
+    · subst h1; simp [ih]
+    · by_cases h2 : c = '\n'
+      · subst h2; simp [ih]
+      · by_cases h3 : c = '@'
+        · subst h3; simp [ih]
+        · simp [h1, h2, h3, ih]; exact ⟨fun h => h2 h.symm, fun h => h3 h.symm⟩
+
+/-- injectivity: two different values never get the same encoding. -/
+theorem L.escape_injective (a b : List Char) (h : escape a = escape b) : a = b := by
+  have ha := L.unescape_escape a
+  rw [h, L.unescape_escape] at ha
+  exact (Except.ok.inj ha).symm
+
+
+theorem L.escape_unescape (t s : List Char) (h : unescape t = .ok s)
+    (hn : '\n' ∉ t) (hd : '@' ∉ t) : escape s = t := by
+  fun_induction unescape t generalizing s with
+  | case1 => cases h; exact escape_nil
+  | case2 => cases h
+  | case3 rest' ih =>
+    simp only [Except.map] at h
+    split at h
+    · cases h
+    · rename_i r hr
+      cases h
+      rw [escape_cons]
+      simp only [List.mem_cons, not_or] at hn hd
+      rw [ih r hr hn.2.2 hd.2.2]
+      rfl
+  | case4 rest' hd1 ih =>
+    simp only [Except.map] at h
+    split at h
+    · cases h
+    · rename_i r hr
+      cases h
+      rw [escape_cons]
+      simp only [List.mem_cons, not_or] at hn hd
+      rw [ih r hr hn.2.2 hd.2.2]
+      rfl
+  | case5 rest' hd1 hd2 ih =>
+    simp only [Except.map] at h
+    split at h
+    · cases h
+    · rename_i r hr
+      cases h
+      rw [escape_cons]
+      simp only [List.mem_cons, not_or] at hn hd
+      rw [ih r hr hn.2.2 hd.2.2]
+      rfl
+  | case6 => cases h
+  | case7 c rest hc ih =>
+    simp only [Except.map] at h
+    split at h
+    · cases h
+    · rename_i r hr
+      cases h
+      rw [escape_cons]
+      simp only [List.mem_cons, not_or] at hn hd
+      rw [ih r hr hn.2 hd.2]
+      unfold escChar
+      simp [hc, Ne.symm hn.1, Ne.symm hd.1]
+
+/-- `''` and `None` coincide. -/
+def normEmpty (v : Option (List Char)) : Option (List Char) :=
+  match v with
+  | some [] => none
+  | v => v
+
+theorem mapM_cols (vs : List (Option (List Char))) :
+    (vs.map (fun v => escape (v.getD []))).mapM
+      (fun col => if col.isEmpty then (Except.ok none : Except Err _) else (unescape col).map some)
+    = .ok (vs.map normEmpty) := by
+  induction vs with
+  | nil => rfl
+  | cons v vs ih =>
+    simp only [List.map_cons, List.mapM_cons, ih]
+    cases v with
+    | none => simp [normEmpty, escape_nil]; rfl
+    | some s =>
+      cases s with
+      | nil => simp [normEmpty, escape_nil]; rfl
+      | cons c s =>
+        have hne : escape (c :: s) ≠ [] := fun h => by
+          have := (escape_eq_nil (c :: s)).mp h; simp at this
+        have : (escape (c :: s)).isEmpty = false := by
+          cases h : escape (c :: s) with
+          | nil => exact absurd h hne
+          | cons _ _ => rfl
+        simp [normEmpty, this, L.unescape_escape, Except.map]; rfl
+
+theorem cols_no_delim (vs : List (Option (List Char))) :
+    ∀ p ∈ vs.map (fun v => escape (v.getD [])), '@' ∉ p := by
+  intro p hp
+  simp only [List.mem_map] at hp
+  obtain ⟨v, _, rfl⟩ := hp
+  exact (L.escape_safe _).2
+
+end Verif.C08
+
+namespace Verif.C08
+open Verif.Py Verif.Tables
+
+theorem L.unescape_ok_iff (t : List Char) : (∃ s, unescape t = .ok s) ↔ WellEscaped t = true := by
+  fun_induction unescape t with
+  | case1 => simp [WellEscaped]
+  | case2 => simp [WellEscaped]
+  | case3 rest' ih =>
+    simp only [WellEscaped]
+    simp only [Except.map]
+    constructor
+    · rintro ⟨s, hs⟩
+      split at hs
+      · cases hs
+      · rename_i r hr; simpa using ih.mp ⟨r, hr⟩
+    · intro h
+      have := ih.mpr (by simpa using h)
+      obtain ⟨r, hr⟩ := this
+      exact ⟨'\\' :: r, by rw [hr]⟩
+  | case4 rest' hd1 ih =>
+    simp only [WellEscaped]
+    simp only [Except.map]
+    constructor
+    · rintro ⟨s, hs⟩
+      split at hs
+      · cases hs
+      · rename_i r hr; simpa using ih.mp ⟨r, hr⟩
+    · intro h
+      have := ih.mpr (by simpa using h)
+      obtain ⟨r, hr⟩ := this
+      exact ⟨fieldDelimiter :: r, by rw [hr]⟩
+  | case5 rest' hd1 hd2 ih =>
+    simp only [WellEscaped]
+    simp only [Except.map]
+    constructor
+    · rintro ⟨s, hs⟩
+      split at hs
+      · cases hs
+      · rename_i r hr; simpa using ih.mp ⟨r, hr⟩
+    · intro h
+      have := ih.mpr (by simpa using h)
+      obtain ⟨r, hr⟩ := this
+      exact ⟨'\n' :: r, by rw [hr]⟩
+  | case6 d rest' h1 h2 h3 =>
+    simp [WellEscaped, h1, h2, h3]
+  | case7 c rest hc ih =>
+    have hw : WellEscaped (c :: rest) = WellEscaped rest := by
+      rw [WellEscaped.eq_def]; simp [hc]
+    rw [hw]
+    simp only [Except.map]
+    constructor
+    · rintro ⟨s, hs⟩
+      split at hs
+      · cases hs
+      · rename_i r hr; exact ih.mp ⟨r, hr⟩
+    · intro h
+      obtain ⟨r, hr⟩ := ih.mpr h
+      exact ⟨c :: r, by rw [hr]⟩
+
+
+theorem L.natDigits_all (n : Nat) : (natDigits n).all isDigit = true := by
+  simp only [List.all_eq_true, natDigits, isDigit]
+  intro c hc
+  exact Nat.isDigit_of_mem_toDigits (by decide) (by decide) hc
+
+theorem L.digitsToNat_natDigits (n : Nat) : digitsToNat (natDigits n) = n := by
+  unfold digitsToNat natDigits
+  rw [← Nat.ofDigitChars_eq_foldl]
+  exact Nat.ofDigitChars_toDigits (by decide) (by decide)
+
+theorem L.natDigits_ne_nil (n : Nat) : natDigits n ≠ [] := Nat.toDigits_ne_nil
+
+theorem L.natDigits_head (n : Nat) : ∀ c r, natDigits n = c :: r → c ≠ '-' ∧ c ≠ '+' := by
+  intro c r h
+  have : c.isDigit := Nat.isDigit_of_mem_toDigits (b := 10) (n := n) (by decide) (by decide) (by
+    show c ∈ natDigits n
+    rw [h]; simp)
+  constructor <;> (intro e; subst e; revert this; decide)
+
+theorem L.castInt_formatInt (i : Int) : castInt (formatInt i) = .ok i := by
+  cases i with
+  | ofNat n =>
+    simp only [formatInt]
+    cases h : natDigits n with
+    | nil => exact absurd h (L.natDigits_ne_nil n)
+    | cons c r =>
+      obtain ⟨h1, h2⟩ := L.natDigits_head n c r h
+      have hall := L.natDigits_all n
+      have hval := L.digitsToNat_natDigits n
+      rw [h] at hall hval
+      unfold castInt
+      simp [h1, h2, hall, hval]
+  | negSucc n =>
+    simp only [formatInt]
+    have hall := L.natDigits_all (n + 1)
+    have hval := L.digitsToNat_natDigits (n + 1)
+    have hne := L.natDigits_ne_nil (n + 1)
+    unfold castInt
+    simp [hall, hval, hne]
+    rfl
+end Verif.C08
